@@ -183,6 +183,15 @@ func (s *Server) Exit(ctx context.Context) error {
 
 func (s *Server) DidOpen(ctx context.Context, params *protocol.DidOpenTextDocumentParams) error {
 	s.documents.Store(params.TextDocument.URI, params.TextDocument.Text)
+	// The editor's text is what counts from now on, and it may differ from the file
+	// on disk (a restored unsaved buffer, a file changed outside the editor).
+	s.dropPayeeTemplates()
+	if path := uriToPath(params.TextDocument.URI); path != "" {
+		if s.workspace != nil {
+			s.workspace.UpdateFile(path, params.TextDocument.Text)
+		}
+		s.loader.InvalidateFile(path)
+	}
 	go s.publishDiagnostics(ctx, params.TextDocument.URI, params.TextDocument.Text)
 	return nil
 }
@@ -223,6 +232,16 @@ func isFullChange(r protocol.Range) bool {
 func (s *Server) DidClose(ctx context.Context, params *protocol.DidCloseTextDocumentParams) error {
 	s.documents.Delete(params.TextDocument.URI)
 	tokenCache.delete(params.TextDocument.URI)
+	// A closed document is the file on disk again: edits that were not saved are gone.
+	s.dropPayeeTemplates()
+	if path := uriToPath(params.TextDocument.URI); path != "" {
+		if s.workspace != nil {
+			if data, err := os.ReadFile(path); err == nil {
+				s.workspace.UpdateFile(path, string(data))
+			}
+		}
+		s.loader.InvalidateFile(path)
+	}
 	return nil
 }
 
